@@ -27,6 +27,18 @@ type w2Case struct {
 	BufSize int    `json:"buf_size"`
 	Matcher int    `json:"matcher"`
 	Hist    []w2Op `json:"history"`
+	// Opsfit != 0: every write whose data is "@opsfit" carries the generated input with this many
+	// filler literals (harness/opsfit_gen.go: one far match with all adaptive contexts trained against it,
+	// placed where the compressed chunk is nearly full)
+	Opsfit int `json:"opsfit_filler,omitempty"`
+}
+
+func (c w2Case) data(op w2Op) []byte {
+	if op.Data == "@opsfit" {
+		d, _ := opsfitGenerate(opsfitParams{Seed: 1, Filler: c.Opsfit, Tail: 1000})
+		return d
+	}
+	return unhxe(op.Data)
 }
 
 func (c w2Case) config() lzma.Writer2Config {
@@ -107,7 +119,7 @@ func runW2Case(r *Result, dp *DriverPool, cs w2Case) {
 			before := buf.Len()
 			switch op.Kind {
 			case "write":
-				p := unhxe(op.Data)
+				p := cs.data(op)
 				res := guard(func() (int, error) { return w.Write(p) })
 				if closed {
 					if res.Err == "nil" && len(p) > 0 || res.Err == "Panic" || buf.Len() != before {
@@ -253,6 +265,19 @@ func checkC08(a *checkArgs, r *Result) error {
 	rep := bytes.Repeat([]byte("all work and no play makes jack a dull boy. "), 60000)
 	cases = append(cases, w2Case{Op: "writer2-history", Name: fmt.Sprintf("big/repetitive w%d C", len(rep)), LC: 3, PB: 2, DictCap: 1 << 20, BufSize: 4096,
 		Hist: []w2Op{{"write", hxe(rep)}, {"flush", ""}, {"write", hxe(rep[:1500000])}, {"close", ""}}})
+	// one far match that costs 17-18 range-coder bytes, started where the compressed chunk has 16..21 bytes of
+	// room left (F17: opLenMargin smaller than worst-case operation + Close); the filler length moves the alignment
+	fillers := []int{93900, 93906, 93912, 93918, 93924, 93930, 93936, 93942}
+	if a.tier == "thorough" {
+		fillers = nil
+		for f := 93870; f <= 93960; f++ {
+			fillers = append(fillers, f)
+		}
+	}
+	for _, f := range fillers {
+		cases = append(cases, w2Case{Op: "writer2-history", Name: fmt.Sprintf("corpus/opsfit filler=%d", f), LC: 3, PB: 2, DictCap: 8 << 20, BufSize: 4096,
+			Opsfit: f, Hist: []w2Op{{"write", "@opsfit"}, {"close", ""}}})
+	}
 	for i := 0; i < big; i++ {
 		d := genLowEntropy(rng, 2200000+rng.Intn(200000))
 		cases = append(cases, w2Case{Op: "writer2-history", Name: fmt.Sprintf("big/w%d F w100 C", len(d)), LC: 3, PB: 2, DictCap: 1 << 20, BufSize: 4096,
@@ -267,7 +292,9 @@ func checkC08(a *checkArgs, r *Result) error {
 			defer wg.Done()
 			defer func() { <-sem }()
 			runW2Case(r, dp, cs)
-			runW2Model(r, dp, cs)
+			if cs.Opsfit == 0 || cs.Opsfit == 93918 {
+				runW2Model(r, dp, cs)
+			}
 		}(cs)
 	}
 	wg.Wait()
